@@ -40,15 +40,20 @@ TIE = {
     'gen_dir': 'MalVerif/Py/GenVisitor',
     'gen_modules': MODULE_ORDER,
     'order': 40,
-    'chain': ['MalVerif.Model.Compiler.Tree', 'MalVerif.Py.AbsVisitor', 'MalVerif.Py.TieVisitorBase',
-              'MalVerif.Py.TieVisitorExpr', 'MalVerif.Py.TieVisitorTtc', 'MalVerif.PropsGen.C04'],
+    'chain': ['MalVerif.Py.AbsVisitor', 'MalVerif.Py.TieVisitorBase', 'MalVerif.Py.TieVisitorLeaves',
+              'MalVerif.Py.TieVisitorResolve', 'MalVerif.Py.TieVisitorClause', 'MalVerif.Py.TieVisitorExpr',
+              'MalVerif.Py.TieVisitorTtc', 'MalVerif.Py.TieVisitorAssoc', 'MalVerif.Py.TieVisitorTop',
+              'MalVerif.PropsGen.C04'],
     'needs': {
-        'C04': ['MalVerif.Py.TieVisitorExpr', 'MalVerif.Py.TieVisitorTtc', 'MalVerif.PropsGen.C04'],
+        'C04': ['MalVerif.Py.TieVisitorTop', 'MalVerif.Py.TieVisitorTtc', 'MalVerif.Py.TieVisitorAssoc',
+                'MalVerif.PropsGen.C04'],
     },
     'sources': {
-        'C04': 'language/compiler/mal_visitor.py: every method of malVisitor (visitMal … visitLinkname, _resolve_part_ID_type, '
-               '_post_process_multitudes; self.compiler.compile is a parameter); language/compiler/mal_parser.py: the accessor '
-               'methods of the context classes (tables)',
+        'C04': 'language/compiler/mal_visitor.py: every method of malVisitor is translated (self.compiler.compile is a parameter) and executed '
+               'in the correspondence; proved equal to the model: visitExpr, visitParts, visitPart, _resolve_part_ID_type, visitSetop, visitType, '
+               'visitVarsubst, visitPrecondition, visitReaches, visitVariable, visitTtc, visitTtcexpr, visitTtcterm, visitTtcfact, visitTtcatom, '
+               'visitTtcdist, visitNumber, visitMeta, visitTag, visitCias, visitCia, visitSteptype, visitInclude, visitDefine, visitField, '
+               'visitLinkname; language/compiler/mal_parser.py: the accessor methods of the context classes (tables)',
     },
 }
 
